@@ -63,5 +63,5 @@ PROPS = {
     "C16": {"jobs": [rapid("TestC16", 20000, 120000), enum("TestC16ConcurrentIDs")]},
     "C17": {"jobs": [rapid("TestC17Docs", 10000, 60000), rapid("TestC17Request", 1000, 4000)]},
     "C18": {"jobs": [rapid("TestC18Enrich", 5000, 30000), rapid("TestC18Cache", 4000, 30000), rapid("TestC18Providers", 4000, 20000)]},
-    "C19": {"jobs": [rapid("TestC19", 3000, 8000), enum("TestC19Extremes")]},
+    "C19": {"jobs": [rapid("TestC19", 3000, 8000), enum("TestC19Extremes"), enum("TestC19Spellings")]},
 }
